@@ -40,6 +40,7 @@ structure Behav where
   kids : Nat := 0                  -- number of child processes the worker forks
   kidTerm : Option Nat := some 0
   execFail : Bool := false         -- Popen raises OSError for this attempt
+  spawnMs : Nat := 0               -- time the fork/exec (and the after_spawn hook) takes
   deriving Repr, Inhabited
 
 structure KProc where
